@@ -44,6 +44,11 @@ Definition quat_of_angle_axis (angle : K F) (axis : vec) : vec :=
 Definition eigen_normalized (v : vec) : vec :=
   let z := sqnorm v in if kgtb z 0 then vdivs v (ksqrt F z) else v.
 
+(* Eigen::Quaternion::UnitRandom (impl/eigen.h randQuat): u1 in [0,1], u2, u3 in [0, 2 pi];
+   Quaternion(w = a sin u2, x = a cos u2, y = b sin u3, z = b cos u3), coefficient order (x, y, z, w) *)
+Definition rand_quat (u1 u2 u3 : K F) : vec :=
+  let a := ksqrt F (kz 1 - u1) in let b := ksqrt F u1 in
+  [a * kcos F u2; b * ksin F u3; b * kcos F u3; a * ksin F u2].
 (* ---- SO3Base ---- *)
 Definition so3_rotation (c : vec) : mat := quat_matrix c.
 Definition so3_transform (c : vec) : mat := mset_block (mid 4) 0 0 (so3_rotation c).
@@ -151,6 +156,7 @@ Definition SO3 : GroupOps F := {|
   g_smallAdj := so3_smallAdj; g_generator := so3_generator; g_vee := so3_vee;
   g_bracket := fun a b => mvmul (so3_smallAdj a) b;
   g_innerweights := inner_weights_generic 3 3 so3_generator;
-  g_trandom := fun u => u
+  g_trandom := fun u => u;
+  g_grandom := fun u => rand_quat (vnth u 0) (vnth u 1) (vnth u 2)
 |}.
 End SO3.
